@@ -5,6 +5,10 @@ props = [json.loads(l)['id'] for l in open('/verif/properties.jsonl')]
 TRUST = ("Trusted: go/packages+go/ssa fidelity and our SSA->SMT translation (subset stated in DESIGN 2.1/2.2), 64-bit int, "
          "soundness of z3 4.8.12 / z3 5.1.0 / cvc5 1.0.3, stdlib models of DESIGN 2.2, every contract marked assumed (listed in the evidence file). ")
 claimed = {
+ 'C11': dict(
+   text="Deductive proof, for all 64-bit cell ids and all union lengths, of the membership core of the cell-union algebra on sorted, pairwise-disjoint unions: areSiblings is exact (sound and complete against level/immediate-parent), lowerBound is the partition point, ContainsCellID / IntersectsCellID are sound and complete against 'some member contains / intersects the id' (binary-search post-condition plus the range lemmas of C01), Contains/Intersects of unions against the per-cell tests, IsValid, LeafCellsCovered does not overflow, CellUnionFromRange yields valid cells starting at begin and ending at end, contiguous (thorough tier), no index panics, termination. Normalize's covering-equivalence, intersection/difference set equality, CellIndex and s2intersect are NOT decided (named in evidence).",
+   note=TRUST+"Unverified remainder: Normalize (covering equivalence and uniqueness), CellUnionFromIntersection/Difference/Union functional equality, Denormalize leaf-set preservation, CellIndex, s2intersect (maps/closures).",
+   design="3 C11"),
  'C13': dict(
    text="Deductive proof of the state-machine slice: the ShapeIndex bookkeeping invariant SI (ids below nextID present, none above, pendingAdditionsPos <= nextID, fresh => nothing pending, lock free) is established by NewShapeIndex and preserved by Add, Reset, Build, Iterator, Begin, End, maybeApplyUpdates and applyUpdatesInternal from every SI-state, so it holds after every finite sequence of these operations (induction over histories, no bound); the update path never re-enters the index lock (mutex word modelled in memory, Lock requires it free); Loop.Invert re-establishes 'index holds exactly this loop, pending from 0'; every polygon constructor path through initEdgesAndIndex yields a non-nil index; EdgeQuery.FindEdges/Distance/IsDistanceLess/IsDistanceGreater/IsConservative* leave the options pointer and the pointed-to options bit-identical (frame). Equality of float answers across histories beyond these invariants, Remove, and the bodies of the clipping recursion are not decided.",
    note=TRUST+"Assumed contracts: removeShapeInternal, addShapeInternal, updateFaceEdges (bodies outside the subset), findEdgesInternal, sortAndUniqueResults, NewShapeIndexIterator, LocateCellID, PaddedCell.ShrinkToFit, Loop.initBound; unreachability of tracker.lowerBound rests on updateFaceEdges passing disjointFromIndex=isFirstUpdate() (body not verified).",
